@@ -449,3 +449,38 @@ mod test {
         );
     }
 }
+
+// Verification hook H3 (read-only, add-only): see tree_store/page_store/verif/snapshot.rs
+#[cfg(redb_verif)]
+impl TransactionTracker {
+    pub(crate) fn verif_snapshot(&self) -> crate::verif::VTracker {
+        let state = self.state.lock().unwrap();
+        crate::verif::VTracker {
+            next_savepoint_id: state.next_savepoint_id.0,
+            live_read_transactions: state
+                .live_read_transactions
+                .iter()
+                .map(|(id, count)| (id.raw_id(), *count))
+                .collect(),
+            next_transaction_id: state.next_transaction_id.raw_id(),
+            live_write_transaction: state.live_write_transaction.map(TransactionId::raw_id),
+            valid_savepoints: state
+                .valid_savepoints
+                .iter()
+                .map(|(id, txn)| (id.0, txn.raw_id()))
+                .collect(),
+            persistent_savepoints: state.persistent_savepoints.iter().map(|id| id.0).collect(),
+            pending_non_durable_commits: state
+                .pending_non_durable_commits
+                .iter()
+                .map(|(id, ancestor)| (id.raw_id(), ancestor.raw_id()))
+                .collect(),
+            unprocessed_freed_non_durable_commits: state
+                .unprocessed_freed_non_durable_commits
+                .iter()
+                .map(|id| id.raw_id())
+                .collect(),
+            deferred_close: state.deferred_close.is_some(),
+        }
+    }
+}
